@@ -42,13 +42,15 @@ FILE = "commonroad/common/writer/file_writer_xml.py"
 TARGETS = [
     ("Point.create_node", "point"),
     ("Pointlist.add_points_to_node", ""),
-    ("create_exact_node_float", "decimalExactOrInterval"),
-    ("create_exact_node_int", "integerExactOrIntervalGreaterZero"),
+    ("create_exact_node_float", "xs:decimal"),
+    ("create_exact_node_int", "xs:positiveInteger"),
     ("create_interval_node_float", "decimalExactOrInterval"),
     ("create_interval_node_int", "integerExactOrIntervalGreaterZero"),
     ("XMLFileWriter._write_header", "/commonRoad"),
     ("XMLFileWriter._add_all_objects_from_scenario", "/commonRoad"),
     ("XMLFileWriter._add_all_planning_problems_from_planning_problem_set", "/commonRoad"),
+    ("XMLFileWriter.write_to_file", "/commonRoad"),
+    ("XMLFileWriter.write_scenario_to_file", "/commonRoad"),
     ("LocationXMLNode.create_node", "location"),
     ("GeoTransformationXMLNode.create_node", "geoTransformation"),
     ("EnvironmentXMLNode.create_node", "environment"),
@@ -488,7 +490,7 @@ class Fn:
                     self.add(s, r, e)
                 elif self.is_set_call(s) is not None:
                     r, k, v = self.is_set_call(s)
-                    r.attrs.append((k, self.fmt(v), guarded))
+                    r.attrs.append((k, self.fmt(v), block is not r.home))
                 elif (isinstance(f, ast.Attribute) and f.attr == "add_points_to_node" and len(c.args) == 1
                       and isinstance(f.value, ast.Call) and ast.unparse(f.value.func) == "Pointlist.create_from_numpy_array"
                       and len(f.value.args) == 1):
@@ -510,7 +512,7 @@ class Fn:
                 a = self.is_set_call(s.body[0]) if len(s.body) == 1 else None
                 b = self.is_set_call(s.orelse[0]) if len(s.orelse) == 1 else None
                 if a is not None and b is not None and a[0] is b[0] and a[1] == b[1]:
-                    a[0].attrs.append((a[1], ("cond", self.fmt(a[2]), self.fmt(b[2])), guarded))
+                    a[0].attrs.append((a[1], ("cond", self.fmt(a[2]), self.fmt(b[2])), block is not a[0].home))
                     self.skip_if.add(id(s))
                     continue
                 self.conds[id(s)] = self.cond(s.test)
@@ -547,7 +549,7 @@ class Fn:
                     self.scan(h.body, True)
             elif isinstance(s, ast.Return):
                 if s.value is None:
-                    self.add(s, self.ret, ("seq", []))
+                    pass
                 elif isinstance(s.value, ast.Name) and self.target_rec(s.value) is not None:
                     self.add(s, self.ret, ("emit", self.target_rec(s.value)))
                 else:
@@ -567,6 +569,8 @@ class Fn:
     def check_no_element_arg(self, e):
         """an expression the translator skips must not get hold of an element"""
         for n in ast.walk(e):
+            if isinstance(n, ast.Call) and ast.unparse(n.func) in ("etree.ElementTree", "etree.tostring"):
+                continue      # serialisation of the finished tree
             if isinstance(n, ast.Call):
                 for a in list(n.args) + [k.value for k in n.keywords]:
                     if (isinstance(a, ast.Name) and a.id in self.vars) or (isinstance(a, ast.Attribute) and ast.unparse(a) == ROOT_ATTR):
@@ -633,9 +637,17 @@ class Fn:
         body = self.render(self.proj(rec.home, rec, root), rec)
         self.builders.insert(0, dict(
             key=rec.key, kind=kind, tag=rec.tag if kind == "node" else "",
-            xsd=XSD.get(rec.key, "") if root else "", parent=(rec.parent.key if (rec.parent is not None and not root) else ""),
+            xsd=XSD.get(self.key, ""), path=([] if root else self.path_of(rec)),
+            parent=(rec.parent.key if (rec.parent is not None and not root) else ""),
             attrs=[(k, f) for k, f, g in rec.attrs if not g], gattrs=[(k, f) for k, f, g in rec.attrs if g],
             text=rec.text, body=body, atoms=list(self.atoms) if root else []))
+
+    def path_of(self, rec: Rec):
+        p = []
+        while rec is not None and rec.key != self.key:
+            p.insert(0, rec.tag)
+            rec = rec.parent
+        return p
 
     def render(self, evs, owner: Rec):
         out = []
@@ -750,7 +762,7 @@ def l_builder(b):
     text = "none" if b["text"] is None else f"some {l_fmt(b['text'])}"
     lines = [f"def {name} : CR.SrcW.Builder where",
              f"  key := {q(b['key'])}", f"  kind := .{b['kind']}", f"  tag := {q(b['tag'])}", f"  xsd := {q(b['xsd'])}",
-             f"  parent := {q(b['parent'])}", f"  attrs := [{attrs}]", f"  gattrs := [{gattrs}]", f"  text := {text}",
+             f"  path := [{', '.join(q(t) for t in b['path'])}]", f"  parent := {q(b['parent'])}", f"  attrs := [{attrs}]", f"  gattrs := [{gattrs}]", f"  text := {text}",
              f"  atoms := [{', '.join(q(a) for a in b['atoms'])}]",
              "  body :=\n" + l_stmts(b["body"], 4)]
     return name, "\n".join(lines) + "\n"
